@@ -171,6 +171,48 @@ Fixpoint bbs_steps (t : tabs) (cfgs : list (option (list Z))) (st : bbs) : res (
   | c :: r => res_bind (bbs_init_config t c st) (fun st1 => res_map (cons st1) (bbs_steps t r st1))
   end.
 
+(* ------------------------------------------------------------------ the whole start-up: types.InitConfig()
+   config() takes TIME_LOCATION and the two table paths from the configuration; postConfig() first loads the time
+   zone (setTimeLocation -> time.LoadLocation) and returns its error BEFORE initBig5() is reached: a start-up
+   without a loadable time zone is refused and leaves the maps as they were. A configured table path is a name in
+   the file system: the regular table file, nothing, a directory, the empty name, or a symbolic link to any of
+   these (os.Open follows links to the end of the chain; io.ReadAll reads the file found there to its end, so the
+   rows are those of the table file whatever the length of the link itself). *)
+Inductive node := NFile | NMissing | NDir | NNoName | NLink (n : node).
+Fixpoint node_readable (n : node) : bool :=
+  match n with NFile => true | NLink n' => node_readable n' | _ => false end.
+Record attempt := mk_attempt { at_tz : bool; at_b2u : node; at_u2b : node }.
+Definition attempt_paths (a : attempt) : bool * bool := (node_readable (at_b2u a), node_readable (at_u2b a)).
+(* postConfig() *)
+Definition post_config (a : attempt) (t : tabs) : bool * tabs :=
+  if at_tz a then init_big5 (attempt_paths a) t else (false, t).
+Fixpoint run_starts (h : list attempt) (t : tabs) : list bool * tabs :=
+  match h with
+  | [] => ([], t)
+  | a :: h' => let (ok, t1) := post_config a t in let (oks, t2) := run_starts h' t1 in (ok :: oks, t2)
+  end.
+(* wire selectors of op 12 (c17start.go). Time zone: 0 "UTC", 1 "Local" (both load without a zoneinfo database),
+   2 a name no database has, 3 a name time.LoadLocation rejects ("../UTC"). Path: 0-3 as in op 10, 4 link with an
+   absolute target, 5 link with a relative target, 6 the file reached through a linked directory (the last
+   component is the regular file), 7 link to a link, 8 dangling link, 9 link to a directory *)
+Definition tz_of (z : Z) : option bool :=
+  if (z =? 0) || (z =? 1) then Some true else if (z =? 2) || (z =? 3) then Some false else None.
+Definition node_of (z : Z) : option node :=
+  if z =? 0 then Some NFile else if z =? 1 then Some NMissing else if z =? 2 then Some NDir
+  else if z =? 3 then Some NNoName else if z =? 4 then Some (NLink NFile) else if z =? 5 then Some (NLink NFile)
+  else if z =? 6 then Some NFile else if z =? 7 then Some (NLink (NLink NFile))
+  else if z =? 8 then Some (NLink NMissing) else if z =? 9 then Some (NLink NDir) else None.
+Fixpoint parse_starts (h : list Z) : option (list attempt) :=
+  match h with
+  | [] => Some []
+  | z :: pb :: pu :: r =>
+      match tz_of z, node_of pb, node_of pu, parse_starts r with
+      | Some tz, Some nb, Some nu, Some l => Some (mk_attempt tz nb nu :: l)
+      | _, _, _, _ => None
+      end
+  | _ => None
+  end.
+
 (* wire helpers of ops 10 / 11 *)
 Fixpoint parse_hist (h : list Z) : option (list (bool * bool)) :=
   match h with
@@ -213,7 +255,8 @@ Definition bbs_wire (t : tabs) (st : bbs) : list Z :=
 
 (* wire: op 1 Big5ToUtf8(bytes), op 2 Utf8ToBig5(string(bytes)) — tables loaded;
    op 10: history of start-ups in a new process, then conversions on the tables it leaves;
-   op 11: history of start-ups in a new process, then ptttype.InitConfig() steps (formats: c17init.go) *)
+   op 11: history of start-ups in a new process, then ptttype.InitConfig() steps (formats: c17init.go);
+   op 12: as op 10 with whole start-ups (time zone, table paths that may be symbolic links; c17start.go) *)
 Definition run_case (args : list (list Z)) : list Z :=
   match args with
   | [[1]; s] => wire (fun o => o) (big5_to_utf8 s)
@@ -223,6 +266,13 @@ Definition run_case (args : list (list Z)) : list Z :=
       | None => [ST_BADCASE]
       | Some hs =>
           let (oks, t) := run_inits hs no_tabs in
+          match convs_of t gs with Some o => ST_OK :: sts_wire oks ++ o | None => [ST_BADCASE] end
+      end
+  | [12] :: h :: gs =>
+      match parse_starts h with
+      | None => [ST_BADCASE]
+      | Some hs =>
+          let (oks, t) := run_starts hs no_tabs in
           match convs_of t gs with Some o => ST_OK :: sts_wire oks ++ o | None => [ST_BADCASE] end
       end
   | [11] :: h :: gs =>
